@@ -75,6 +75,10 @@ fn shape_for(prop: &str, i: usize) -> Shape {
             s.p_tl = 30;
             s.p_batch = 8;
             s.p_zst = [0, 100, 50, 0][v];
+            s.tl_in_batch = v == 2;
+            if v == 2 {
+                s.p_batch = 25;
+            }
         }
         "C13" => {
             s.p_batch = 25;
